@@ -19,6 +19,30 @@ func init() {
 	core.Register(&core.Family{Name: "ident", Exec: exec, Classify: classify})
 	core.Checks["C11"] = check
 	schema.C13Identities = SubmoduleIdentities
+	schema.C05Identities = Repeatable
+}
+
+// Repeatable is the part of C05 that runs over the identity space: the order of every list is the same in every run
+// and under every load order (same-named identities in modules that declare the same prefix included).
+func Repeatable(r *core.Run) {
+	core.CaseSuffix = `,"prop":"C05"}`
+	defer func() { core.CaseSuffix = "" }()
+	var mu sync.Mutex
+	seen := map[[20]byte]bool{}
+	r.DirectionA("ident", core.TLCOpts{Module: "MCI_quick", Cfg: "MCI_quick.cfg", Workers: 12, Timeout: 0, HeapGB: 16}, func(i int64, body string) bool {
+		// ties in the order arise between identities of the same name: those programs, each once
+		if classify('A', []byte(body)) != "same-name-in-two-modules" {
+			return false
+		}
+		h := sha1.Sum([]byte(body))
+		mu.Lock()
+		defer mu.Unlock()
+		if seen[h] {
+			return false
+		}
+		seen[h] = true
+		return true
+	})
 }
 
 // SubmoduleIdentities: the programs of the quick space that place an identity in the submodule, under C13 (an included
@@ -44,6 +68,8 @@ type vals struct {
 	Vals []key `json:"vals"`
 }
 type cas struct {
+	// Prop: "C05" when the program is replayed for reproducibility only (the same sequences in every run and load order)
+	Prop   string `json:"prop"`
 	Ids    []id   `json:"ids"`
 	Err    bool   `json:"err"`
 	Values []vals `json:"values"`
@@ -258,6 +284,22 @@ func exec(kind byte, body []byte) *core.Verdict {
 	var c cas
 	if err := json.Unmarshal(body, &c); err != nil {
 		return &core.Verdict{Infra: "case: " + err.Error()}
+	}
+	if c.Prop == "C05" {
+		// every module declaring the same own prefix, and the plain rendering: 4 load orders each, twice
+		for _, shared := range []bool{true, false, true} {
+			v := judgeVariant(&c, len(body), shared)
+			if v.Infra != "" {
+				return v
+			}
+			if !v.OK && v.Sig != "order-varies" {
+				v.OK, v.Out = true, true // (what the lists CONTAIN is C11's question)
+			}
+			if !v.OK || v.Out {
+				return v
+			}
+		}
+		return &core.Verdict{OK: true, Class: classOf(&c), NT: len(c.Ids) >= 2, N: 12}
 	}
 	v0 := judgeVariant(&c, len(body), false)
 	if !v0.OK || v0.Infra != "" {
